@@ -485,14 +485,24 @@ def part_from_matchfile(
     onset_in_beats = np.array([note.OnsetInBeats for note in snotes])
     unique_onsets, inv_idxs = np.unique(onset_in_beats, return_inverse=True)
 
-    iois_in_beats = np.diff(unique_onsets)
-    beat_to_quarter = 4 / beat_type_map(onset_in_beats)
-
-    iois_in_quarters_offset = np.r_[
-        beat_to_quarter[0] * onset_in_beats[0],
-        (4 / beat_type_map(unique_onsets[:-1])) * iois_in_beats,
-    ]
-    onset_in_quarters = np.cumsum(iois_in_quarters_offset)
+    # convert beats to quarters piecewise, one stretch per time signature,
+    # so that an interval that spans a time signature change is measured
+    # with the beat type in force in each of its parts
+    ts_beat_times = np.array([ts_time for ts_time, _, _ in ts], dtype=float)
+    ts_beat_types = np.array([tsg.denominator for _, _, tsg in ts], dtype=float)
+    ts_quarter_times = np.cumsum(
+        np.r_[
+            ts_beat_times[0] * 4 / ts_beat_types[0],
+            4 * np.diff(ts_beat_times) / ts_beat_types[:-1],
+        ]
+    )
+    ts_idx = np.clip(
+        np.searchsorted(ts_beat_times, unique_onsets, side="right") - 1, 0, None
+    )
+    onset_in_quarters = (
+        ts_quarter_times[ts_idx]
+        + (unique_onsets - ts_beat_times[ts_idx]) * 4 / ts_beat_types[ts_idx]
+    )
     iois_in_quarters = np.diff(onset_in_quarters)
 
     # ___ these divs are relative to quarters;
